@@ -45,6 +45,9 @@ type Case struct {
 
 var ttSizes = []int{32, 64, 3200, 32 * 1024, 1 << 20}
 
+// knownRec is the recorder used to classify occurrences of listed known findings.
+var knownRec *evid.Rec
+
 // pooled engine instances are reused across cases without Clear (tables carry over); the
 // cases run on an instance since it was created are logged so that a failure can be replayed
 // from a fresh instance. An instance is retired after logLimit cases.
@@ -75,6 +78,9 @@ type rootInfo struct {
 	third   bool
 	mate    bool
 	nolegal bool
+	// knownRawEP: the root is a third occurrence only because the start FEN carried a raw, uncapturable
+	// en-passant target that the engine keeps in its hash (known finding start-fen-raw-ep, owned by C10)
+	knownRawEP bool
 }
 
 func setup(c Case) (*rootInfo, error) {
@@ -87,6 +93,8 @@ func setup(c Case) (*rootInfo, error) {
 		return nil, fmt.Errorf("engine rejects valid FEN %q: %v", c.FEN, err)
 	}
 	cnt := map[string]int{p.Key(): 1}
+	rawStart := p.EP >= 0 && !p.EPCapturable()
+	startKey := p.Key()
 	for _, s := range c.Moves {
 		m, err := refchess.ParseMove(s)
 		if err != nil {
@@ -104,6 +112,9 @@ func setup(c Case) (*rootInfo, error) {
 	ri.mate = ri.nolegal && p.InCheck(p.White)
 	ri.third = cnt[p.Key()] >= 3
 	ri.final = ri.nolegal || ri.third || p.Half >= 100
+	if rawStart && ri.third && cnt[p.Key()] == 3 && p.Key() == startKey && !ri.nolegal && p.Half < 100 && len(c.Moves) > 0 {
+		ri.knownRawEP = true
+	}
 	return ri, nil
 }
 
@@ -137,6 +148,10 @@ func judge(c Case, ri *rootInfo, before board.VerifSnapshot, r srch.Result, comp
 	}
 	if completed && ri.final {
 		okScore := r.Score == 0 || (ri.mate && r.Score == -chess.Inf)
+		if ri.knownRawEP && r.Move != 0 && knownRec != nil && knownRec.IsKnownOpen("start-fen-raw-ep") {
+			knownRec.KnownHit("start-fen-raw-ep", "third occurrence of a start position whose FEN carried a raw, uncapturable en-passant target is not recognised (same root cause as the C10 finding): the search plays on instead of returning the null move")
+			return nil
+		}
 		if r.Move != 0 || !okScore {
 			return fmt.Errorf("%s: completed search on the final root %s (no legal move=%v third occurrence=%v clock=%d) returned %s", what, ri.p.FEN(), ri.nolegal, ri.third, ri.p.Half, r.Describe())
 		}
@@ -664,6 +679,7 @@ func drawGoArgs(t *rapid.T) string {
 func TestC06(t *testing.T) {
 	evid.Main(t, "C06", func(rec *evid.Rec) {
 		spsa := params.UCIOptions() != ""
+		knownRec = rec
 		rec.Rule("roots with game history (playouts, repetition-prone histories, clock 96..108, boxed-king mates/stalemates/single replies, suite/bench/synthetic/motif) x limit combinations (depth 1..8, hard node budget k as abort point, soft nodes) x table sizes {32 B, 64 B, 3200 B, 32 KB, 1 MB} x stop channel {none, closed before the call, closed from inside the j-th info line, closed by a timer}; engine instances reused without Clear; abort sweeps: every k in 0..K (K=400 quick, 4000 thorough) as WithNodes(k) on drawn roots; UCI leg: `go` with generated numeric arguments (depth up to 2^63-1, clocks, movetime, nodes, malformed values) on the real driver. Oracle: returned move is null or in the reference legal set; null only if the reference says the root is final (no legal move, clock>=100, third occurrence); a completed search on a final root returns (null, 0) or (null, mated); deep snapshot of the board before == after; node budget respected; a follow-up search on the same instance works. Non-trivial = abort fired inside an iteration, or the root is final / single-reply, or a well-formed UCI go; distinct by (root, history, limits)")
 		rec.Assume("reference rules and position identity from verif/refchess; snapshot hook board.VerifSnapshot")
 		if spsa {
@@ -722,6 +738,7 @@ func TestC06(t *testing.T) {
 		if err := json.Unmarshal(raw, &c); err != nil {
 			return err
 		}
+		knownRec = evid.Open("C06") // listed known findings stay classified in replays too
 		return one(c, nil)
 	})
 }
